@@ -15,6 +15,11 @@ HOSTILE_PATHS = ["a'b", 'a"b', "a\\b", "a\nb", "a b", "é/中", "a b", "a#b", 
 HOSTILE_NAMES = ["a.1", "a-b", "if", "class", "1a", "a.b.c", "_", "A", "constructor", "__proto__", "x1"]
 
 
+# valid JavaScript bodies of script modules, including ones whose last token is a comment without a line end
+SCRIPT_BODIES = ["exports.f=function(x){return x}", "exports.f=function(x){return x} // trailing comment", "exports.f=function(x){return x}\n<!-- html comment",
+                 "exports.f=function(x){return x};/* c */", "// only a comment", "", "exports.f=function(x){return x}\n", "exports.f=(x)=>x // }"]
+
+
 def run(chk):
     quick = chk.tier != "thorough"
     chk.rule = ("(1) generated identifiers: model vs get_var_name/next_var_name for every id below N (exhaustive); (2) every artefact (per-template object, "
@@ -27,15 +32,7 @@ def run(chk):
     chk.assumptions = ["inline script bodies are valid JavaScript (property premise)",
                        "PARTIAL: proved = identifiers (valid, unreserved, distinct), string literals, value expressions and hoisted statements, if-selector statements; "
                        "the statement skeleton of the tag-level generator (arrow functions, var lists, if/else blocks) is covered by the oracle only"]
-    from . import extractors
-    extractors.regen_all()
-    for mod, thms in (("GE.Thm.C02VarName", THM_VARNAME), ("GE.Thm.C04", THM_EXPR), ("GE.Thm.C12", THM_LIT)):
-        failed, log = chk.prove(mod, thms)
-        for t in failed:
-            chk.violation("proof", f"obligation {t} no longer checks", theorem=t, log=log[-3000:])
-    ok, log = core.lake_build(["gedriver"])
-    if not ok:
-        raise core.BrokenTie("driver-build", log)
+    chk.model_tie([("GE.Thm.C02VarName", THM_VARNAME), ("GE.Thm.C04", THM_EXPR), ("GE.Thm.C12", THM_LIT)])
     rng = chk.rng.fork("c02")
     # ---- identifiers ---------------------------------------------------------------------------
     N = 250000 if quick else 5000000
@@ -72,15 +69,19 @@ def run(chk):
             # hostile names and scopes
             path = r.choice(HOSTILE_PATHS)
             mod = r.choice(["m", "mod1", "$m", "_m"])
-            src += '<wxs module="%s">exports.f=function(x){return x}</wxs><v a="{{%s.f(1)}}" bind:tap="{{%s.f}}"/>' % (mod, mod, mod)
+            body = r.choice(SCRIPT_BODIES)
+            src += '<wxs module="%s">%s</wxs><v a="{{%s.f(1)}}" bind:tap="{{%s.f}}"/>' % (mod, body, mod, mod)
             nm = r.choice(HOSTILE_NAMES)
             src += '<v slot:%s="sv"><v x="{{sv}}"/></v><v slot:%s/>' % (nm, r.choice(HOSTILE_NAMES))
             src += '<wxs module="e" src="%s"/><import src="%s"/><include src="%s"/>' % (r.choice(["/s", "s", "../s"]), r.choice(["q", "/q"]), r.choice(["q", "./q"]))
             src += '<v %s="1" data-%s="2" mark:%s="3" bind:%s="h" generic:%s="g"/>' % tuple(r.choice(["a.b", "a-b", "x1", "A", "if"]) for _ in range(5))
-            scripts = [[r.choice(HOSTILE_PATHS + ["s"]), "exports.x=1"]]
+            scripts = [[r.choice(HOSTILE_PATHS + ["s"]), r.choice(SCRIPT_BODIES)]] if r.chance(3, 4) else []
         if kind == 3:
             src = mutate.mutate(r.fork("m"), src)
-        filesets.append({"files": [[path, src], ["q", "<v/>{{a}}"]], "scripts": scripts, "dev": (i % 7 == 0)})
+        fs = {"files": [[path, src], ["q", "<v/>{{a}}"]], "scripts": scripts, "dev": (i % 7 == 0)}
+        if i % 3 == 0:
+            fs["extra"] = r.choice(["var foo=1;", "function extra(){}", "var a=1;var b=2;"])   # set_extra_runtime_script, with and without scripts
+        filesets.append(fs)
     for i in range(60 if quick else 2000):
         filesets.append({"files": [["p", mutate.raw(rng.fork(("raw", i)))]]})
     # large templates
